@@ -159,7 +159,8 @@ def decide(pid, tier, units_cfg, props_cfg, quiet=False):
         "canaries_failed_as_required": canaries,
         "units": {u: {"status": r.status, "reason": r.reason, "verified_fns": r.verified, "errors": r.errors,
                       "wall_s": round(r.wall_s, 2), "generated_file_sha": r.gen_sha,
-                      "strip_and_compare_items": r.strip_compare} for u, r in results.items()},
+                      "strip_and_compare_items": r.strip_compare,
+                      "annotations_left_out_because_their_anchor_no_longer_exists": getattr(r, "skipped_anchors", {})} for u, r in results.items()},
         "samples": samples,
         "solver_time_ms": smt_ms,
         "machine_arithmetic": "Verus: exec integers are fixed-width and every arithmetic operation carries an "
